@@ -249,11 +249,11 @@ try {
     }
     char* script_str = nullptr;
     if (pipe_in) {
-        // read the whole first line, whatever its length (a fixed 1024 byte buffer silently cut long scripts,
-        // and was read uninitialized when stdin was empty)
+        // read all of it, whatever its length and however many lines (a fixed 1024 byte buffer silently cut long scripts and was read
+        // uninitialized when stdin was empty; reading one line ran "[" alone when a bracketed script had its tokens on separate lines)
         char* buf = nullptr;
         size_t cap = 0;
-        ssize_t len = getline(&buf, &cap, stdin);
+        ssize_t len = getdelim(&buf, &cap, '\0', stdin);
         if (len < 0) {
             fprintf(stderr, "warning: no input\n");
             len = 0;
@@ -261,7 +261,7 @@ try {
         // (blanks around the script are not part of it: "[OP_1] " was taken for a string because it does not end in ']')
         while (len > 0 && (buf[len-1] == '\n' || buf[len-1] == '\r' || buf[len-1] == ' ' || buf[len-1] == '\t')) buf[--len] = 0;
         const char* line = buf;
-        while (len > 0 && (*line == ' ' || *line == '\t')) { ++line; --len; }
+        while (len > 0 && (*line == ' ' || *line == '\t' || *line == '\n' || *line == '\r')) { ++line; --len; }
         script_str = strdup(len > 0 ? line : "");
         free(buf);
     } else if (ca.l.size() > 0) {
